@@ -24,7 +24,9 @@ Rules (applied bottom-up, to a fixpoint; the result is a deep copy, the parsed m
   alias    a local with ONE binding (not in a loop) whose value is a path (`a.b["k"]`) is replaced by that path in all its
            uses unless a later statement stores to that path or to a prefix of it (stores are looked at through all other
            path aliases); a local with one binding and ONE use whose value is any expression is replaced unless a later
-           statement stores to something the expression reads, or the use is evaluated repeatedly (loop / comprehension body)
+           statement stores to something the expression reads, or the use is evaluated repeatedly (loop / comprehension body);
+           a local with one binding whose value is a PURE, idempotent builtin call over paths / literals (`type(x)`, `id(x)`,
+           `isinstance(x, C)`; the builtin not shadowed in the function) is replaced in ALL its uses under the same condition
   dispatch a local dict literal with literal keys that is only indexed (`D[x]`) and tested (`x in D`) -> if / elif on `==`
   inline   a call to a PRIVATE function of the package (module-level function, also imported with `from pyxel.x import _f`;
            `self._m(...)` / `cls._m(...)` / `Class._m(...)` of the same class or a base class) is replaced by its normalised
@@ -77,6 +79,19 @@ def path_of(e):
             return tuple(out[::-1])
         else:
             return None
+
+
+PURE_BUILTINS = {"type": 1, "id": 1, "isinstance": 2, "issubclass": 2}
+
+
+def is_pure_call(e, bound=()) -> bool:
+    """`type(x)` / `id(x)` / `isinstance(x, C)` over paths, literals and pure calls: no side effect, and the same value every
+    time it is evaluated as long as nothing it reads is stored to (checked by the caller)."""
+    if not (isinstance(e, ast.Call) and isinstance(e.func, ast.Name) and e.func.id in PURE_BUILTINS and e.func.id not in bound
+            and not e.keywords and len(e.args) == PURE_BUILTINS[e.func.id]):
+        return False
+    return all(path_of(a) is not None or is_literal(a) or is_pure_call(a, bound)
+               or (isinstance(a, ast.Tuple) and all(path_of(x) is not None for x in a.elts)) for a in e.args)
 
 
 def is_prefix(a, b) -> bool:
@@ -1100,7 +1115,8 @@ def subst_aliases(fn):
                 continue
             is_path = path_of(s.value) is not None
             is_lit = is_literal(s.value) and not any(isinstance(n, (ast.List, ast.Set)) for n in ast.walk(s.value))
-            if not is_path and not is_lit and (len(loads) != 1 or id(loads[0]) in multi):
+            is_pure = is_pure_call(s.value, counts)
+            if not is_path and not is_lit and not is_pure and (len(loads) != 1 or id(loads[0]) in multi):
                 continue
             reads = [expand(p) for p in read_paths(s.value)]
             after = [t for ts in stores[k + 1:] for t in ts]
